@@ -63,6 +63,14 @@ fn run(ctx: &RunCtx) -> Report {
     let net = if very_slow { NetCfg { drop_ppm: 0, dup_ppm: 0, slow_ppm: vrng.range(300_000, 550_000) as u32, slow_extra_ms: (600, 3000), ..net } } else { net };
     let sim = Sim::new(ctx.seed, net.clone());
     sim.set_snap_mode(if very_slow { SnapMode::Every } else { SnapMode::Off });
+    // Fault point (own random stream): in two of three very-slow runs every node compacts its in-flight list on
+    // every poll, not only when the vector happens to be exactly full (hook verif::set_force_compaction; reset when
+    // the Env is removed). Compaction may only drop requests older than four timeouts, so nothing observable changes
+    // on a correct tree; a retention shorter than the timeout makes in-time acknowledgements "unexpected".
+    if very_slow && Rng::new(crate::rng::key(ctx.seed, &[crate::rng::tag("c08-force-compact")])).chance(2, 3) {
+        dht::verif::set_force_compaction(true);
+        report.probe("very_slow_runs_with_forced_compaction", 1);
+    }
     // (time, request timeout the writer reported) - filled in very-slow runs
     let timeouts: std::rc::Rc<std::cell::RefCell<Vec<(u64, u64)>>> = Default::default();
     let writer_cell: std::rc::Rc<std::cell::RefCell<Option<HostId>>> = Default::default();
